@@ -38,7 +38,13 @@ PROPS["C18"] = dict(
                 "rounding in front of the integer codec is modelled in an exact binary64 softfloat and every sampled implementation output is "
                 "compared in Lean with (a) the code of the exact containing cell and (b) the modelled cell; decoders are compared on accept/reject, "
                 "precision and value. Harness oracles on the implementation: alphabet, prefix law, decode∘encode, re-encode, case-insensitivity, "
-                "accepted-string-is-a-code, outputs untouched on throw."),
+                "accepted-string-is-a-code, outputs untouched on throw. "
+                "Added (all inputs, proved): the rounding theory of the executable binary64 model (Proofs/Round53.lean: roundTo_spec, roundTo_halfulp, "
+                "round53_relerr, roundTo_mono, roundTo_idem, round53_int, RoundSpec round53) and, from it, gars_scale_contains / georef_scale_contains "
+                "(the coded cell is the exact cell of the prepared point or, only when the rounded product is exactly the next integer, its upper "
+                "neighbour: class F2), gars_scale_shape, gars_scale_exact_of_representable; integer round trips digits_readback (every table), "
+                "gars_decode_encode (all cells, precisions, centerp) and geohash_decode_encode / geohash_decode_encode46 (all cells, all lengths). "
+                "Not proved: scale_contains for the division-based Geohash/OSGB scale steps; decode∘encode for Georef/OSGB (correspondence only)."),
     level_note=("alphabets and integer constants of all four classes regenerated from the sources each run; hand-written models of Forward/Reverse; "
                 "pow(10,k) and integer→double conversions assumed exact (they are, for the ranges used)"),
     technique="Lean 4 proof of the integer codecs + exact-arithmetic correspondence of the scaling step and decoders against the implementation",
